@@ -25,7 +25,7 @@ import (
 // ---- C11: the real client Handshake() against the real ServerDnsListener over a simulated DNS path ----
 //
 // op line (after the component keyword):
-//   <case> <strip7> <types> <limit> <fail> <dom> <seed> <oracle>
+//   <case> <strip7> <types> <limit> <fail> <dom> <amap> <seed> <oracle>
 //     case   : id | lower | upper | rand        per-character map applied to the packed question name
 //     strip7 : 0 | 1                            clear bit 7 of every name character (before the case map)
 //     types  : 8 x 0/1, order null priv txt srv mx cname aaaa a   which record types the path answers
@@ -33,6 +33,8 @@ import (
 //     fail   : to | sf                          unanswered type: dropped (client sees an i/o timeout, the
 //                                               way a real net.Error timeout reaches it) | SERVFAIL reply
 //     dom    : s | m | l                        tunnel domain (short / example.org / long)
+//     amap   : id | lower | strip7              map applied to the characters of the answers' rdata (TXT strings,
+//                                               CNAME/MX/SRV target labels, NULL/PRIVATE bytes) on the way back
 //     seed   : decimal                          random casing, payload data
 //     oracle : '-' or  key=outcome,key=outcome  outcome of every distinct probe the client made, as seen
 //              by the client (t transport/decode error, k ok, e server error, l length, c content,
@@ -103,6 +105,7 @@ type hsPath struct {
 	limit    int
 	fail     string
 	dom      string
+	amap     string
 	seed     uint64
 }
 
@@ -119,12 +122,12 @@ func (p hsPath) tokens() string {
 	if p.strip7 {
 		s7 = "1"
 	}
-	return fmt.Sprintf("%s %s %s %d %s %s %d", p.caseMode, s7, t, p.limit, p.fail, p.dom, p.seed)
+	return fmt.Sprintf("%s %s %s %d %s %s %s %d", p.caseMode, s7, t, p.limit, p.fail, p.dom, p.amap, p.seed)
 }
 
 func parseHsPath(t []string) (hsPath, bool) {
 	var p hsPath
-	if len(t) < 7 {
+	if len(t) < 8 {
 		return p, false
 	}
 	switch t[0] {
@@ -162,7 +165,13 @@ func parseHsPath(t []string) (hsPath, bool) {
 		return p, false
 	}
 	p.dom = t[5]
-	s, err := strconv.ParseUint(t[6], 10, 64)
+	switch t[6] {
+	case "id", "lower", "strip7":
+		p.amap = t[6]
+	default:
+		return p, false
+	}
+	s, err := strconv.ParseUint(t[7], 10, 64)
 	if err != nil {
 		return p, false
 	}
@@ -297,6 +306,86 @@ func (c *pathComm) mapQuestion(wire []byte, nq int) []byte {
 	return out
 }
 
+func (c *pathComm) mapAnswerChar(b byte) byte {
+	switch c.p.amap {
+	case "lower":
+		if b >= 'A' && b <= 'Z' {
+			return b + 32
+		}
+	case "strip7":
+		return b & 0x7f
+	}
+	return b
+}
+
+// mapAnswers applies the answer-side character map to the rdata of a packed answer (the listener never
+// compresses names, so records can be walked linearly; anything unexpected leaves the message untouched).
+func (c *pathComm) mapAnswers(wire []byte, nq, na int) []byte {
+	if c.p.amap == "id" || c.p.amap == "" {
+		return wire
+	}
+	out := append([]byte{}, wire...)
+	skipName := func(off int, mapIt bool) int {
+		for off < len(out) {
+			l := int(out[off])
+			off++
+			if l == 0 {
+				return off
+			}
+			if l&0xC0 != 0 {
+				return off + 1
+			}
+			for i := 0; i < l && off < len(out); i++ {
+				if mapIt {
+					out[off] = c.mapAnswerChar(out[off])
+				}
+				off++
+			}
+		}
+		return off
+	}
+	off := 12
+	for q := 0; q < nq; q++ {
+		off = skipName(off, false) + 4
+	}
+	for a := 0; a < na && off < len(out); a++ {
+		off = skipName(off, false)
+		if off+10 > len(out) {
+			return wire
+		}
+		typ := uint16(out[off])<<8 | uint16(out[off+1])
+		rdlen := int(out[off+8])<<8 | int(out[off+9])
+		off += 10
+		end := off + rdlen
+		if end > len(out) {
+			return wire
+		}
+		switch hsTypeIndex(typ) {
+		case 0, 1: // NULL, PRIVATE: opaque bytes
+			for i := off; i < end; i++ {
+				out[i] = c.mapAnswerChar(out[i])
+			}
+		case 2: // TXT: <len><chars>...
+			for i := off; i < end; {
+				l := int(out[i])
+				i++
+				for j := 0; j < l && i < end; j++ {
+					out[i] = c.mapAnswerChar(out[i])
+					i++
+				}
+			}
+		case 3: // SRV
+			skipName(off+6, true)
+		case 4: // MX
+			skipName(off+2, true)
+		case 5: // CNAME
+			skipName(off, true)
+		}
+		off = end
+	}
+	return out
+}
+
 func (c *pathComm) exchange(m *dns.Msg) (*dns.Msg, error) {
 	wire, err := m.Pack()
 	if err != nil {
@@ -338,6 +427,7 @@ func (c *pathComm) exchange(m *dns.Msg) (*dns.Msg, error) {
 	if c.p.limit > 0 && len(out) > c.p.limit {
 		return nil, c.timeoutErr(m)
 	}
+	out = c.mapAnswers(out, len(resp.Question), len(resp.Answer))
 	var back dns.Msg
 	if err := back.Unpack(out); err != nil {
 		return nil, errors.Wrapf(err, "Could not send packet")
@@ -371,7 +461,6 @@ func (c *pathComm) SendAndReceive(m *dns.Msg, timeout *time.Duration) (*dns.Msg,
 	c.queries++
 	resp, err := c.exchange(m)
 	if c.phase == 0 {
-		c.hsQueries++
 		c.record(m, resp, err)
 	} else if hsDebug && err != nil {
 		fmt.Fprintf(os.Stderr, "DATA-PHASE exchange error: %.300v\n", err)
@@ -402,8 +491,9 @@ func hsPattern(p []byte) []byte {
 func (c *pathComm) record(m *dns.Msg, resp *dns.Msg, err error) {
 	key, out := c.classify(m, resp, err)
 	if key == "" {
-		return
+		return // data packets of the poll loop that Handshake starts just before it returns
 	}
+	c.hsQueries++
 	if old, ok := c.trace[key]; ok {
 		if old != out && c.nondet == "" {
 			c.nondet = key + ":" + old + "/" + out
@@ -1000,14 +1090,14 @@ func (d *dnshsComp) Exec(op string) (string, string, string, bool) {
 	}
 	t := strings.Fields(op)
 	p, ok := parseHsPath(t)
-	if !ok || len(t) != 8 {
+	if !ok || len(t) != 9 {
 		return "malformed", "", "malformed", false
 	}
 	run := runHsPath(p)
 	if os.Getenv("VERIF_HS_TRACE") != "" {
 		fmt.Fprintf(os.Stderr, "ORACLE %s\n", run.oracle)
 	}
-	if run.oracle != t[7] {
+	if run.oracle != t[8] {
 		// the probe outcomes recorded in the op line are no longer what the code produces on this path
 		return "oracle-changed " + run.result, run.monitor, run.class, run.nontrivial
 	}
@@ -1066,9 +1156,10 @@ func hsMask(m int) [8]bool {
 
 func (d *dnshsComp) Gen(r *Rand, tier string, emit func(op string)) {
 	paths := hsCorpusPaths()
-	add := func(cm string, s7 bool, mask int, limit int, fail, dom string) {
-		paths = append(paths, hsPath{caseMode: cm, strip7: s7, answers: hsMask(mask), limit: limit, fail: fail, dom: dom, seed: r.Next() % 100000})
+	addA := func(cm string, s7 bool, mask int, limit int, fail, dom, amap string) {
+		paths = append(paths, hsPath{caseMode: cm, strip7: s7, answers: hsMask(mask), limit: limit, fail: fail, dom: dom, amap: amap, seed: r.Next() % 100000})
 	}
+	add := func(cm string, s7 bool, mask int, limit int, fail, dom string) { addA(cm, s7, mask, limit, fail, dom, "id") }
 	if tier == "thorough" {
 		// the whole family: 4 casings x 7-bit x 256 type subsets x 8 limits
 		for _, cm := range hsCases {
@@ -1080,6 +1171,16 @@ func (d *dnshsComp) Gen(r *Rand, tier string, emit func(op string)) {
 							fail = "sf"
 						}
 						add(cm, s7 == 1, mask, l, fail, []string{"m", "s", "l"}[(mask+s7)%3])
+					}
+				}
+			}
+		}
+		// plus answers that are not 8-bit / case clean, for the transparent and the lower-casing query path
+		for _, am := range []string{"lower", "strip7"} {
+			for _, cm := range []string{"id", "lower"} {
+				for mask := 0; mask < 256; mask++ {
+					for _, l := range []int{0, 1500} {
+						addA(cm, false, mask, l, "to", "m", am)
 					}
 				}
 			}
@@ -1105,6 +1206,12 @@ func (d *dnshsComp) Gen(r *Rand, tier string, emit func(op string)) {
 		for i := 0; i < 8; i++ {
 			add("id", false, 1<<uint(7-i), 0, "sf", "s")
 			add("lower", false, 1<<uint(7-i), 0, "to", "l")
+		}
+		// answers that are not 8-bit / case clean: every single type, then some mixes
+		for i := 0; i < 8; i++ {
+			addA("id", false, 1<<uint(7-i), 0, "to", "m", "lower")
+			addA("id", false, 1<<uint(7-i), 0, "to", "m", "strip7")
+			addA("lower", false, 1<<uint(7-i), 1500, "sf", "s", "strip7")
 		}
 		// random members of the family
 		for k := 0; k < 40; k++ {
